@@ -37,13 +37,21 @@
      ANegatedInSubshell  a subshell whose list has a negated statement at its top level: under errexit
                      bash lets a failure inside that negated command end the subshell
                      (`set -e; ( ! { false; echo a; } ); echo $?` prints 0), the interpreter ignores it
+     AErrexitInSubst a command substitution whose result depends on errexit being inherited: bash
+                     switches errexit off inside $( ), the interpreter keeps it (KF-C26-5)
+     APipeLastStage  the last stage of a pipeline has a lasting effect (assignment, function
+                     definition, option, exit/return/break): it runs in the parent shell in the
+                     interpreter and in a subshell in bash (KF-C26-1)
+     ASubstStatus    "$?" or another command substitution expanded after a command substitution of
+                     the same command whose status differs from $?: bash shows that status to the
+                     later expansions (`echo "$(false)" "$?"` prints 1), the interpreter does not
    NO PROOFS in this file. *)
 From Verif Require Import Base.Str Interp.Core.
 Open Scope N_scope.
 
 Inductive abort :=
 | AFuel | AUnsupported | ABadCount | ABadStatus | AReturnOutside | ABreakInCond | AEmptyCond | ASetInIgnored
-| ANegatedInSubshell.
+| ANegatedInSubshell | AErrexitInSubst | APipeLastStage | ASubstStatus.
 
 Inductive outcome :=
 | ONormal
@@ -58,7 +66,8 @@ Record sst := mkS {
   sfuncs : list (str * stmt);
   sout : str;
   slast : N;            (* $? *)
-  serrexit : bool }.    (* set -e *)
+  serrexit : bool;      (* set -e *)
+  spipefail : bool }.   (* set -o pipefail *)
 
 (* dynamic context: inside a loop of this function activation / subshell; inside a
    function; errexit ignored *)
@@ -66,13 +75,66 @@ Record sctx := mkK { inl : bool; infn : bool; noerr : bool }.
 
 Definition sres := (sst * N * outcome)%type.
 
-Definition s_set_vars v ss := mkS v (sfuncs ss) (sout ss) (slast ss) (serrexit ss).
-Definition s_set_funcs v ss := mkS (svars ss) v (sout ss) (slast ss) (serrexit ss).
-Definition s_set_out v ss := mkS (svars ss) (sfuncs ss) v (slast ss) (serrexit ss).
-Definition s_set_last v ss := mkS (svars ss) (sfuncs ss) (sout ss) v (serrexit ss).
-Definition s_set_errexit v ss := mkS (svars ss) (sfuncs ss) (sout ss) (slast ss) v.
+Definition s_set_vars v ss := mkS v (sfuncs ss) (sout ss) (slast ss) (serrexit ss) (spipefail ss).
+Definition s_set_funcs v ss := mkS (svars ss) v (sout ss) (slast ss) (serrexit ss) (spipefail ss).
+Definition s_set_out v ss := mkS (svars ss) (sfuncs ss) v (slast ss) (serrexit ss) (spipefail ss).
+Definition s_set_last v ss := mkS (svars ss) (sfuncs ss) (sout ss) v (serrexit ss) (spipefail ss).
+Definition s_set_errexit v ss := mkS (svars ss) (sfuncs ss) (sout ss) (slast ss) v (spipefail ss).
+Definition s_set_pipefail v ss := mkS (svars ss) (sfuncs ss) (sout ss) (slast ss) (serrexit ss) v.
 
-Definition sexpw (ss : sst) (w : word) : str := expand_word (svars ss) (slast ss) w.
+(* ---- boolean equality of syntax and states (used only by the scope predicates
+   AErrexitInSubst and APipeLastStage; nothing is proved about them) ---- *)
+Definition list_eqb {A} (f : A -> A -> bool) : list A -> list A -> bool :=
+  fix go a b := match a, b with
+                | [], [] => true
+                | x :: a', y :: b' => f x y && go a' b'
+                | _, _ => false
+                end.
+Fixpoint bytes_eqb (a b : str) : bool :=
+  match a, b with [], [] => true | x :: a', y :: b' => N.eqb x y && bytes_eqb a' b' | _, _ => false end.
+
+Fixpoint wpart_eqb (a b : wpart) {struct a} : bool :=
+  match a, b with
+  | WLit s, WLit t => bytes_eqb s t
+  | WVar s, WVar t => bytes_eqb s t
+  | WStatus, WStatus => true
+  | WSubst l, WSubst m => list_eqb stmt_eqb l m
+  | _, _ => false
+  end
+with pat_eqb (a b : pat) {struct a} : bool :=
+  match a, b with
+  | PWord w, PWord v => list_eqb wpart_eqb w v
+  | PAny, PAny => true
+  | _, _ => false
+  end
+with cmd_eqb (a b : cmd) {struct a} : bool :=
+  match a, b with
+  | CAssign x w, CAssign y v => bytes_eqb x y && list_eqb wpart_eqb w v
+  | CCall w ws, CCall v vs => list_eqb wpart_eqb w v && list_eqb (list_eqb wpart_eqb) ws vs
+  | CBlock l, CBlock m => list_eqb stmt_eqb l m
+  | CSub l, CSub m => list_eqb stmt_eqb l m
+  | CAnd x y, CAnd x' y' => stmt_eqb x x' && stmt_eqb y y'
+  | COr x y, COr x' y' => stmt_eqb x x' && stmt_eqb y y'
+  | CPipe x y, CPipe x' y' => stmt_eqb x x' && stmt_eqb y y'
+  | CIf c t e, CIf c' t' e' =>
+      list_eqb stmt_eqb c c' && list_eqb stmt_eqb t t' &&
+      match e, e' with None, None => true | Some x, Some y => cmd_eqb x y | _, _ => false end
+  | CWhile u c b0, CWhile u' c' b' => Bool.eqb u u' && list_eqb stmt_eqb c c' && list_eqb stmt_eqb b0 b'
+  | CFor x it b0, CFor y it' b' => bytes_eqb x y && list_eqb (list_eqb wpart_eqb) it it' && list_eqb stmt_eqb b0 b'
+  | CCase w it, CCase v it' =>
+      list_eqb wpart_eqb w v &&
+      list_eqb (fun p q => list_eqb pat_eqb (fst p) (fst q) && list_eqb stmt_eqb (snd p) (snd q)) it it'
+  | CFunc n b0, CFunc m b' => bytes_eqb n m && stmt_eqb b0 b'
+  | _, _ => false
+  end
+with stmt_eqb (a b : stmt) {struct a} : bool :=
+  match a, b with Stmt n c, Stmt m d => Bool.eqb n m && cmd_eqb c d end.
+
+(* same variables, functions and options (the output and $? may differ) *)
+Definition same_shell (a b : sst) : bool :=
+  list_eqb (fun p q => bytes_eqb (fst p) (fst q) && bytes_eqb (snd p) (snd q)) (svars a) (svars b) &&
+  list_eqb (fun p q => bytes_eqb (fst p) (fst q) && stmt_eqb (snd p) (snd q)) (sfuncs a) (sfuncs b) &&
+  Bool.eqb (serrexit a) (serrexit b) && Bool.eqb (spipefail a) (spipefail b).
 
 (* `break 0` and friends leave ALL loops: represented by the largest count *)
 Definition all_loops : Z := max_int64.
@@ -125,6 +187,11 @@ Definition sem_builtin (k : sctx) (name : str) (args : list str) (ss : sst) : sr
     | [a] => if str_eqb a n_me then (s_set_errexit true ss, 0, ONormal)
              else if str_eqb a n_pe then (s_set_errexit false ss, 0, ONormal)
              else (ss, 0, OAbort AUnsupported)
+    | [a; b] => if str_eqb b n_pipefail then
+                  if str_eqb a n_mo then (s_set_pipefail true ss, 0, ONormal)
+                  else if str_eqb a n_po then (s_set_pipefail false ss, 0, ONormal)
+                  else (ss, 0, OAbort AUnsupported)
+                else (ss, 0, OAbort AUnsupported)
     | _ => (ss, 0, OAbort AUnsupported)
     end
   else if is_other_builtin name then (ss, 0, OAbort AUnsupported)
@@ -175,6 +242,90 @@ Fixpoint sem_stmts (k : sctx) (l : list stmt) (ss : sst) : sres :=
           | _ => sem_stmts k l' ss1
           end
       | res => res
+      end
+  end.
+
+(* ---- expansion ---- *)
+(* the text, and the status of the last command substitution (unchanged if there is none) *)
+Inductive eres (A : Type) := EOk (v : A) (le : N) | EAbort (why : abort).
+Arguments EOk {A} v le.
+Arguments EAbort {A} why.
+
+(* "$( l )": the list runs in a subshell; only its output, without the trailing newlines,
+   and its status come back.  bash switches errexit off inside; the interpreter does not:
+   when that makes a difference the program is outside the scope (AErrexitInSubst). *)
+Definition sem_subst (k : sctx) (l : list stmt) (ss : sst) (le : N) : eres str :=
+  match l with
+  | [] => EOk [] le
+  | _ =>
+      let kk := mkK false false (noerr k) in
+      let child := s_set_out [] ss in
+      match sem_stmts kk l child with
+      | (_, _, OAbort why) => EAbort why
+      | (ss2, c2, _) =>
+          if serrexit ss then
+            match sem_stmts kk l (s_set_errexit false child) with
+            | (_, _, OAbort why) => EAbort why
+            | (ss1, c1, _) =>
+                if bytes_eqb (sout ss1) (sout ss2) && (c1 =? c2)
+                then EOk (subst_output (sout ss2)) c2
+                else EAbort AErrexitInSubst
+            end
+          else EOk (subst_output (sout ss2)) c2
+      end
+  end.
+
+(* [cur] is what bash shows as $? at this point of the expansion: the status of the last command
+   substitution of the same command, if any.  The interpreter keeps showing the old $?; when the
+   two differ where it matters the program is outside the scope (ASubstStatus). *)
+Fixpoint sem_expand_word (k : sctx) (w : word) (ss : sst) (le cur : N) : eres (str * N) :=
+  match w with
+  | [] => EOk ([], cur) le
+  | p :: w' =>
+      let r := match p with
+               | WSubst l =>
+                   if negb (cur =? slast ss) then EAbort ASubstStatus else
+                   match sem_subst k l ss le with
+                   | EOk a le1 => EOk (a, match l with [] => cur | _ => le1 end) le1
+                   | EAbort why => EAbort why
+                   end
+               | WStatus =>
+                   if negb (cur =? slast ss) then EAbort ASubstStatus else EOk (itoa_u8 cur, cur) le
+               | _ => EOk (match part_pure (svars ss) (slast ss) p with Some a => a | None => [] end, cur) le
+               end in
+      match r with
+      | EAbort why => EAbort why
+      | EOk (a, cur1) le1 =>
+          match sem_expand_word k w' ss le1 cur1 with
+          | EAbort why => EAbort why
+          | EOk (b, cur2) le2 => EOk (a ++ b, cur2) le2
+          end
+      end
+  end.
+
+Fixpoint sem_expand_words (k : sctx) (ws : list word) (ss : sst) (le cur : N) : eres (list str * N) :=
+  match ws with
+  | [] => EOk ([], cur) le
+  | w :: ws' =>
+      match sem_expand_word k w ss le cur with
+      | EAbort why => EAbort why
+      | EOk (a, cur1) le1 =>
+          match sem_expand_words k ws' ss le1 cur1 with
+          | EAbort why => EAbort why
+          | EOk (l, cur2) le2 => EOk (a :: l, cur2) le2
+          end
+      end
+  end.
+
+(* does the command look at $? before it has set it: a function body, `exit` / `return` without
+   arguments *)
+Definition observes_status (fields : list str) (ss : sst) : bool :=
+  match fields with
+  | [] => false
+  | name :: args =>
+      match lookup name (sfuncs ss) with
+      | Some _ => true
+      | None => (str_eqb name n_exit || str_eqb name n_return) && match args with [] => true | _ => false end
       end
   end.
 
@@ -234,14 +385,15 @@ Fixpoint sem_for (k : sctx) (x : str) (items : list str) (b : list stmt) (last :
 Definition spat_match (ss : sst) (subject : str) (p : pat) : bool :=
   match p with
   | PAny => true
-  | PWord w => str_eqb (sexpw ss w) subject
+  | PWord w => str_eqb (expand_pure (svars ss) (slast ss) w) subject
   end.
 
 Fixpoint sem_case (k : sctx) (subject : str) (items : list (list pat * list stmt)) (ss : sst) : sres :=
   match items with
   | [] => (ss, 0, ONormal)
   | (pats, body) :: rest =>
-      if existsb (spat_match ss subject) pats then sem_stmts k body ss
+      if existsb pat_has_subst pats then (ss, 0, OAbort AUnsupported)
+      else if existsb (spat_match ss subject) pats then sem_stmts k body ss
       else sem_case k subject rest ss
   end.
 
@@ -262,8 +414,19 @@ Definition sem_call (k : sctx) (fields : list str) (ss : sst) : sres :=
 
 Definition sem_step (fuel : nat) (k : sctx) (c : cmd) (ss : sst) : sres :=
   match c with
-  | CAssign x w => (s_set_vars (update x (sexpw ss w) (svars ss)) ss, 0, ONormal)
-  | CCall w ws => sem_call k (List.map (sexpw ss) (w :: ws)) ss
+  | CAssign x w =>
+      (* the status of an assignment is that of its last command substitution *)
+      match sem_expand_word k w ss 0 (slast ss) with
+      | EAbort why => (ss, 0, OAbort why)
+      | EOk (v, _) le => (s_set_vars (update x v (svars ss)) ss, le, ONormal)
+      end
+  | CCall w ws =>
+      match sem_expand_words k (w :: ws) ss 0 (slast ss) with
+      | EAbort why => (ss, 0, OAbort why)
+      | EOk (fields, cur) _ =>
+          if negb (cur =? slast ss) && observes_status fields ss then (ss, 0, OAbort ASubstStatus)
+          else sem_call k fields ss
+      end
   | CBlock l => sem_stmts k l ss
   | CSub l =>
       if existsb (fun t => match t with Stmt n _ => n end) l then (ss, 0, OAbort ANegatedInSubshell) else
@@ -294,11 +457,43 @@ Definition sem_step (fuel : nat) (k : sctx) (c : cmd) (ss : sst) : sres :=
       | res => res
       end
   | CWhile u c b => sem_while fuel k u c b 0 ss
-  | CFor x items b => sem_for k x (List.map (sexpw ss) items) b 0 ss
-  | CCase w items => sem_case k (sexpw ss w) items ss
+  | CFor x items b =>
+      match sem_expand_words k items ss 0 (slast ss) with
+      | EAbort why => (ss, 0, OAbort why)
+      | EOk (fields, cur) _ =>
+          if negb (cur =? slast ss) then (ss, 0, OAbort ASubstStatus)   (* the body starts with that $? *)
+          else sem_for k x fields b 0 ss
+      end
+  | CCase w items =>
+      match sem_expand_word k w ss 0 (slast ss) with
+      | EAbort why => (ss, 0, OAbort why)
+      | EOk (subject, cur) _ =>
+          if negb (cur =? slast ss) then (ss, 0, OAbort ASubstStatus)
+          else sem_case k subject items ss
+      end
+  | CPipe x y =>
+      (* every stage runs in a subshell; the status is that of the last stage, or with pipefail
+         that of the first stage if it failed and the last did not.  No core builtin reads stdin,
+         so only the status of the first stage matters.  The interpreter runs the last stage in
+         the parent shell: when that stage leaves any trace (variables, functions, options, an
+         exit/return/break) the program is outside the scope (APipeLastStage). *)
+      match sem_stmt (mkK false false (noerr k)) x (s_set_out [] ss) with
+      | (_, _, OAbort why) => (ss, 0, OAbort why)
+      | (_, c1, _) =>
+          match sem_stmt k y ss with
+          | (ss2, c2, ONormal) =>
+              if same_shell ss ss2
+              then (ss2, if spipefail ss2 && negb (c1 =? 0) && (c2 =? 0) then c1 else c2, ONormal)
+              else (ss2, c2, OAbort APipeLastStage)
+          | (ss2, c2, OAbort why) => (ss2, c2, OAbort why)
+          | (ss2, c2, _) => (ss2, c2, OAbort APipeLastStage)
+          end
+      end
   | CFunc name body => (s_set_funcs (update name body (sfuncs ss)) ss, 0, ONormal)
   end.
 End SemInner.
+Arguments EOk {A} v le.
+Arguments EAbort {A} why.
 
 Fixpoint sem (fuel : nat) (k : sctx) (c : cmd) (ss : sst) {struct fuel} : sres :=
   match fuel with
@@ -311,7 +506,7 @@ Definition top_ctx : sctx := mkK false false false.
 Definition sem_prog (fuel : nat) (p : prog) (ss : sst) : sres :=
   sem_stmts (sem fuel) top_ctx p ss.
 
-Definition init_sst : sst := mkS [] [] [] 0 false.
+Definition init_sst : sst := mkS [] [] [] 0 false false.
 
 Definition is_abort (r : outcome) : bool := match r with OAbort _ => true | _ => false end.
 
